@@ -198,7 +198,7 @@ func judge(n *node, out *outcome) *verdict {
 		}
 		v.classes = append(v.classes, "sent:"+strings.SplitN(dl.Kind, ":", 2)[0])
 		hadCanon, hadGoodCommit := canonBefore[dl.Height], goodCommitBefore[dl.Height]
-		if !dl.basicBad {
+		if !dl.basicBad && !dl.pushed {
 			if dl.canon || dl.Kind == "other-height" || dl.Kind == "other-height+right" {
 				canonBefore[dl.Height] = true
 			}
@@ -208,6 +208,20 @@ func judge(n *node, out *outcome) *verdict {
 		}
 		if dl.Kind == "other-height" || dl.Kind == "other-height+right" {
 			continue // canonical content, merely unsolicited
+		}
+		if dl.pushed {
+			// A block nobody asked this peer for. If the node had requested that height from somebody else and no
+			// canonical block for it had been delivered yet, the request slot still exists and belongs to that other
+			// peer: the block must be refused and its sender reported and stopped.
+			if dl.Height <= n.tip && dl.StoreHeight < dl.Height && !hadCanon {
+				firstAt[dl.Height] = true
+				gotAny[dl.Height] = true
+				if dl.askedOther && stopsApply && !stopped[dl.Peer] {
+					bad("peer %d pushed an unsolicited block (%s) for %d, which the node had requested from another peer, and was never stopped",
+						dl.Peer, dl.Kind, dl.Height)
+				}
+			}
+			continue
 		}
 		if !gotAny[dl.Height] {
 			gotAny[dl.Height] = true
@@ -236,6 +250,24 @@ func judge(n *node, out *outcome) *verdict {
 		}
 	}
 	v.liesFirst = len(firstAt)
+	if sc.Family == "push" {
+		// every block the node asked for was answered faithfully, so no verification can fail: whoever is stopped
+		// besides the pushers is being blamed for blocks it did not send
+		for i, d := range doubles {
+			if stopped[i] && d.spec.Role != "liar" {
+				reason := ""
+				n.wrap.mu.Lock()
+				for _, r := range n.wrap.removals {
+					if r.ID == d.ID() {
+						reason = r.Reason
+					}
+				}
+				n.wrap.mu.Unlock()
+				bad("honest peer %d was stopped for error (%s) although every block requested from it was answered with the canonical block; the only misbehaviour in this sync are unsolicited blocks pushed by other peers",
+					i, reason)
+			}
+		}
+	}
 	if nLiars == 0 && len(stopped) > 0 {
 		bad("no lying peer in this sync, yet %d peers were stopped for error", len(stopped))
 	}
@@ -380,6 +412,9 @@ func syncOnce(t failer, test string, sc *scenario, strict bool) *verdict {
 	}
 	if sc.Coalition != nil {
 		cls = append(cls, "coalition")
+	}
+	if sc.Family == "push" {
+		cls = append(cls, "family:push")
 	}
 	if n.reconnects > 0 {
 		cls = append(cls, "honest-collateral-drop")
@@ -575,6 +610,44 @@ func syncOther(t *testing.T, test, version string) {
 		}
 		syncOnce(t, test, sc, false)
 	})
+	if m := infra(); m != "" {
+		t.Fatalf("VERIF-INFRA: %s", m)
+	}
+}
+
+// pushScenario: one honest peer on a slow link (answers 30 ticks after the request), one peer that pushes a block of
+// its own for every height the node requests from the honest peer. announces: the pusher also reports the true range
+// (and answers what it is asked faithfully); otherwise it never sends a status and is never asked for anything.
+func pushScenario(kind string, announces bool) *scenario {
+	sc := regressScenario("right")
+	sc.Family = "push"
+	sc.Peers[0].Role, sc.Peers[0].Status, sc.Peers[0].StatusArg = "honest", "true", 0
+	for i := range sc.Peers[0].Resp {
+		sc.Peers[0].Resp[i].Delay = 30
+	}
+	sc.Peers[1].Status = "none"
+	if announces {
+		sc.Peers[1].Status = "true"
+	}
+	sc.Peers[1].Push = &pushSpec{Kind: kind, Arg: 1}
+	return sc
+}
+
+// TestUnsolicitedPush (fixed scenarios, no generator): blocks pushed for heights requested from somebody else must
+// get the pusher stopped - and nobody else.
+func TestUnsolicitedPush(t *testing.T) {
+	for _, c := range []struct {
+		kind      string
+		announces bool
+	}{{"fork", false}, {"commit-padded-sig", false}, {"tx-tamper", true}} {
+		c := c
+		t.Run(fmt.Sprintf("%s/announces=%v", c.kind, c.announces), func(t *testing.T) {
+			v := syncOnce(t, "TestUnsolicitedPush", pushScenario(c.kind, c.announces), true)
+			if v.liesFirst == 0 {
+				t.Fatalf("VERIF-INFRA: no pushed block reached the node ahead of the honest answer")
+			}
+		})
+	}
 	if m := infra(); m != "" {
 		t.Fatalf("VERIF-INFRA: %s", m)
 	}
